@@ -99,6 +99,14 @@ pub fn rule_list(r: &mut Rng, n_net: usize, n_cos: usize) -> Vec<String> {
             4 => format!("@@||{}^$generichide", r.pick(gen::HOSTS)),
             5 => format!("@@||{}^$csp", r.pick(gen::HOSTS)),
             6 => format!("/{}[0-9]+/$script", r.pick(gen::VOCAB)),
+            // patterns that are not their own lower-case form once stored: case-sensitive regex escapes,
+            // $match-case, upper-case letters outside ASCII
+            7 if r.chance(1, 2) => match r.below(4) {
+                0 => format!("/{}\\D+{}/", r.pick(gen::VOCAB), r.pick(gen::VOCAB)),
+                1 => format!("/{}\\W[A-Z]\\S/$match-case", r.pick(gen::VOCAB)),
+                2 => format!("/promo/\u{dc}nited-{}.gif", r.pick(gen::VOCAB)),
+                _ => format!("||{}/\u{c9}t\u{e9}-{}^", r.pick(gen::HOSTS), r.pick(gen::VOCAB)),
+            },
             _ => gen::rule(r, true),
         });
     }
